@@ -6,6 +6,80 @@ import "strconv"
 
 func init() {
 	verifHarnesses["VerifHarness_C02"] = VerifHarness_C02
+	verifHarnesses["VerifHarness_C02_chain"] = VerifHarness_C02_chain
+}
+
+// VerifHarness_C02_chain: longer histories of one controller.
+// variant 0: scan 1 is an accepted scale-up; its cool-down elapses; scan 2 meets an arbitrary
+//   cluster and may get another scale-up accepted; scan 3 follows after a symbolic gap and must
+//   leave the group alone while that second cool-down runs.
+// variant 1: scan 1 is an accepted scale-up (cool-down 15 s); scan 2 follows within 2 s and its
+//   cloud refresh fails once (escalator sleeps 5 s and rebuilds the provider): the lock must survive.
+// shape: [nodes, variant]
+func VerifHarness_C02_chain() {
+	N, variant := verifShape(0), verifShape(1)
+	w := newWorld(0)
+	o := groupOpts(0)
+	cd := int64(2)
+	if variant == 1 {
+		cd = 15
+	}
+	o.ScaleUpCoolDownPeriod = strconv.FormatInt(cd, 10) + "s"
+	o.SoftDeleteGracePeriod, o.HardDeleteGracePeriod = "30s", "2m"
+	o.MinNodes, o.MaxNodes = 1, N+12
+	g := w.addGroup(o, 0, int64(N)+12, 0)
+	w.symNodes("", g, N, []int{tcNone}, false, []int{0}, false)
+	w.symPods("", g, 1, 1, false, int64(N)*w.cpuPerNode*80/100, false) // 80%: scale up by a little
+	w.build()
+	_ = w.ctrl.RunOnce()
+	j1 := w.summarize(g, 0)
+	verifAssert("C02.harness-scan1-accepted", j1.increases == 1)
+
+	if variant == 1 {
+		gap := verifInt("gap", 0, 2)
+		verifSleepSeconds(gap)
+		for j, p := range w.pods {
+			w.setPodCPU(p, verifInt("p"+strconv.Itoa(j)+".cpu2", 0, 3*int64(N)*w.cpuPerNode))
+		}
+		w.J.FailBudget = 1
+		mark := len(w.J.Calls)
+		_ = w.ctrl.RunOnce()
+		j2 := w.summarize(g, mark)
+		// gap (<=2) + one 5 s retry sleep + 2 s of jitter stay inside the 15 s cool-down
+		verifAssert("C02.lock-survives-provider-rebuild", j2.total == 0)
+		if w.builder.Builds > 0 {
+			verifReach("C02.provider-rebuilt-in-cooldown")
+		}
+		return
+	}
+
+	verifSleepSeconds(cd + 1)
+	classes := []int{tcNone, tcForce}
+	for i, n := range w.nodes {
+		is := "n" + strconv.Itoa(i)
+		w.retaint(n, classes[verifChoice(is+".class2", len(classes))], 0)
+	}
+	for j, p := range w.pods {
+		w.setPodCPU(p, verifInt("p"+strconv.Itoa(j)+".cpu2", 0, 2*int64(N)*w.cpuPerNode))
+	}
+	s2 := w.snap(g)
+	mark2 := len(w.J.Calls)
+	_ = w.ctrl.RunOnce()
+	j2 := w.summarize(g, mark2)
+	accepted2 := j2.increases > 0
+	verifReachIf("C02.second-scale-up-via-below-min", verifAnd(accepted2, s2.untainted < int64(o.MinNodes)))
+
+	gap2 := verifInt("gap2", 0, cd+2)
+	verifSleepSeconds(gap2)
+	for j, p := range w.pods {
+		w.setPodCPU(p, verifInt("p"+strconv.Itoa(j)+".cpu3", 0, 4*int64(N)*w.cpuPerNode))
+	}
+	mark3 := len(w.J.Calls)
+	_ = w.ctrl.RunOnce()
+	j3 := w.summarize(g, mark3)
+	inside := verifAnd(accepted2, gap2+2 <= cd)
+	verifAssert("C02.every-accepted-scale-up-is-cooled-down", verifImplies(inside, j3.total == 0))
+	verifReachIf("C02.second-cooldown", inside)
 }
 
 // VerifHarness_C02: two scans of one controller. Scan 1 runs on a fixed
